@@ -371,8 +371,17 @@ where
     > {
         let targets = self.targets().as_single_targets();
 
-        Ok(self
-            .labels()
+        // one view per distinct label, in the order the labels first appear in the targets (the
+        // hash-set order of `labels()` changed from run to run, and with it the order of the
+        // member models of a `MultiClassModel` built from these views, which decides score ties)
+        let mut labels: Vec<L> = Vec::new();
+        for label in targets.iter() {
+            if !labels.contains(label) {
+                labels.push(label.clone());
+            }
+        }
+
+        Ok(labels
             .into_iter()
             .map(|label| {
                 let targets = targets.iter().map(|x| x == &label).collect::<Array1<_>>();
